@@ -200,20 +200,46 @@ def map_descriptor(mod, fn, calias='_C'):
                 elif entry == 'flatten_with_path' and len(tg) == 3:
                     paths_var, leaves_var, spec_var = tg
     d['spec_var'] = spec_var
-    # flat_args = [leaves] + [spec.flatten_up_to(r) for r in rests]
+    # flat_args: the leaves followed by every rest matched against the treespec.  Recognised
+    # eager forms:  [leaves] + [spec.flatten_up_to(r) for r in rests]
+    #               [leaves, *[spec.flatten_up_to(r) for r in rests]]
+    #               [leaves] + list(map(spec.flatten_up_to, rests))   /  [leaves, *map(...)]
     flat_var = None
-    for s in fn.body:
-        tg = _assign_targets(s)
-        if tg and len(tg) == 1 and isinstance(s.value, ast.BinOp) and isinstance(s.value.op, ast.Add):
-            l, r = s.value.left, s.value.right
-            if isinstance(l, ast.List) and len(l.elts) == 1 and is_name(l.elts[0], leaves_var) and \
-                    isinstance(r, ast.ListComp) and isinstance(r.elt, ast.Call) and \
-                    call_name(r.elt) == '%s.flatten_up_to' % spec_var and \
-                    len(r.generators) == 1 and is_name(r.generators[0].iter, 'rests') and \
-                    len(r.elt.args) == 1 and isinstance(r.generators[0].target, ast.Name) and \
-                    is_name(r.elt.args[0], r.generators[0].target.id):
-                d['flat_args_ok'] = True
-                flat_var = tg[0]
+    d['flat_args_form'] = None
+
+    def matched_rests(e):
+        """'eager' / 'lazy' / None for an expression that matches rests against the treespec"""
+        if isinstance(e, (ast.ListComp, ast.GeneratorExp)) and isinstance(e.elt, ast.Call) and \
+                call_name(e.elt) == '%s.flatten_up_to' % spec_var and len(e.generators) == 1 and \
+                is_name(e.generators[0].iter, 'rests') and len(e.elt.args) == 1 and \
+                isinstance(e.generators[0].target, ast.Name) and \
+                is_name(e.elt.args[0], e.generators[0].target.id):
+            return 'eager' if isinstance(e, ast.ListComp) else 'lazy'
+        if isinstance(e, ast.Call) and call_name(e) == 'map' and len(e.args) == 2 and \
+                src(e.args[0]) == '%s.flatten_up_to' % spec_var and is_name(e.args[1], 'rests'):
+            return 'lazy'
+        if isinstance(e, ast.Call) and call_name(e) in ('list', 'tuple') and len(e.args) == 1:
+            r = matched_rests(e.args[0])
+            return 'eager' if r else None
+        return None
+    for s_ in fn.body:
+        tg = _assign_targets(s_)
+        if not (tg and len(tg) == 1):
+            continue
+        v = s_.value
+        form = None
+        if isinstance(v, ast.BinOp) and isinstance(v.op, ast.Add) and isinstance(v.left, ast.List) \
+                and len(v.left.elts) == 1 and is_name(v.left.elts[0], leaves_var):
+            form = matched_rests(v.right)
+        elif isinstance(v, ast.List) and len(v.elts) == 2 and is_name(v.elts[0], leaves_var) and \
+                isinstance(v.elts[1], ast.Starred):
+            form = matched_rests(v.elts[1].value)
+            if form == 'lazy':
+                form = 'eager'      # star-unpacking into a list display drains the iterator
+        if form:
+            d['flat_args_ok'] = True
+            d['flat_args_form'] = form
+            flat_var = tg[0]
     maps = [c for c in calls_under(fn) if call_name(c) == 'map' and c.args and is_name(c.args[0], 'func')]
     d['map_calls'] = len(maps)
     if maps:
@@ -278,10 +304,15 @@ def f2(ctx):
         d = map_descriptor(mod, fn, calias)
         exp_consumer = {'unflatten': 'unflatten', 'tree': 'drain', 'transpose': 'list'}[ret]
         problems = []
+        # shapes the extractor does not know are not verdicts
+        ctx.require(d['flatten'] is not None, '%s: no `... = _C.flatten[_with_path](...)` statement recognised' % name)
+        ctx.require(d['map_calls'] >= 1, '%s: no map(func, ...) recognised' % name)
+        if not d['flat_args_ok']:
+            # F3 decides whether the rests are matched (and eagerly); an unknown way of building
+            # the argument list is not a verdict of this rule
+            ctx.fail('%s: the statement that builds the map arguments is not in a recognised form' % name)
         if d['flatten'] != entry:
             problems.append('flattens with %s, expected %s' % (d['flatten'], entry))
-        if not d['flat_args_ok']:
-            problems.append('flat_args is not [leaves] + [treespec.flatten_up_to(r) for r in rests]')
         if d['map_calls'] != 1:
             problems.append('%d map() calls' % d['map_calls'])
         if not d['map_first_is_func']:
@@ -554,11 +585,20 @@ def f9(ctx):
     for name, (ctor, pos, kws) in F9_TABLE.items():
         fn = mod.func(name)
         mk = [c for c in calls_under(fn) if call_name(c) == calias + '.make_from_collection']
-        ok = len(mk) == 1
-        why = '%d make_from_collection calls' % len(mk)
+        ctx.require(len(mk) == 1 and mk[0].args,
+                    '%s: expected exactly one %s.make_from_collection(<collection>, ...) call' % (name, calias))
+        ok = True
+        why = ''
         if ok:
             a0 = mk[0].args[0] if mk[0].args else None
-            ok = isinstance(a0, ast.Call) and call_name(a0) == ctor
+            if isinstance(a0, ast.Name):
+                # collection built in an earlier statement
+                defs = [s_ for s_ in fn.body if isinstance(s_, ast.Assign) and is_name(s_.targets[0], a0.id)]
+                ctx.require(len(defs) == 1, '%s: cannot tell how `%s` is built' % (name, a0.id))
+                a0 = defs[0].value
+            ctx.require(isinstance(a0, ast.Call), '%s: collection argument `%s` is not a constructor call'
+                        % (name, src(a0)))
+            ok = call_name(a0) == ctor
             why = 'collection argument is %s' % (src(a0) if a0 is not None else None)
             if ok:
                 got_pos = [src(x) for x in a0.args]
